@@ -330,7 +330,7 @@ func TestC11(t *testing.T) {
 	h := begin(t, "C11")
 	defer h.Finish()
 	env := h.Env
-	rapidCases(h, "io", env.PerShard(env.Pick(12000, 200000)), genIOCase, func(c ioCase) *fail {
+	rapidCases(h, "io", env.PerShard(env.Pick(12000, 1000000)), genIOCase, func(c ioCase) *fail {
 		st := &ioStats{}
 		f := runIOCase(c, st)
 		cls := "io:" + c.Op
